@@ -171,6 +171,7 @@ def run(ck, facts, tier):
     sites = []
     for fid in sorted(reach):
         sites += panics.sites_of(facts.fns[fid])
+    panics.controls(ck, "R8.2")
     panics.classify(facts, sites, TABLE, validators=[VALIDATOR_ASSERT])
     ck.extra["panic_audit"] = dict(entry_functions=len(entries), reachable_functions=len(reach), sites=len(sites))
     seen_vc = {}
